@@ -2,9 +2,10 @@
 # Apply each seeded change (seeded/<ID>/patch.diff) to /repo's working tree, run that property's check, restore the tree.
 # usage: tools/run_seeded.sh [ID ...]      results: seeded/<ID>/result.txt
 cd /verif || exit 2
-IDS="$@"; [ -z "$IDS" ] && IDS=$(ls seeded | grep -v "^regress-")
+ROOTDIR=${SEED_ROOT:-/verif/seeded}      # SEED_ROOT=/verif/seeded/round2 for the second round
+IDS="$@"; [ -z "$IDS" ] && IDS=$(ls "$ROOTDIR" | grep "^C[0-9][0-9]$")
 for ID in $IDS; do
-  D=/verif/seeded/$ID
+  D=$ROOTDIR/$ID
   [ -f "$D/patch.diff" ] || continue
   if [ -n "$(git -C /repo status --porcelain)" ]; then echo "repo dirty, abort"; exit 2; fi
   if ! git -C /repo apply --check "$D/patch.diff" 2>/dev/null; then echo "$ID patch-does-not-apply" | tee "$D/result.txt"; continue; fi
